@@ -2,3 +2,5 @@ import Rp2.Props.C17
 #print axioms Rp2.C17.row_order_irrelevant
 #print axioms Rp2.C17.asset_rows_independent_of_other_assets
 #print axioms Rp2.C17.model_row_order_irrelevant
+#print axioms Rp2.C17.model_sheet_order_irrelevant
+#print axioms Rp2.C17.model_asset_results_independent_of_other_assets
